@@ -47,6 +47,20 @@ CHECKS["C05"] = dict(
          "UNMONT bijection (C15). Outside: table construction and curve formulas (O3/O4 not yet built), linearity consequences.",
     technique="SSA symbolic execution + SMT (z3 QF_BV), lazy specification tables, formal-linear-combination group domain")
 
+CHECKS["C09"] = dict(
+    category="proof",
+    text="bandersnatch.MultiExp stack executed from SSA in the formal-linear-combination group domain: partitionScalars for every "
+         "implemented window width c in {4..16,20,21,22} and all scalars < r (per-chunk closed-form signed digit, no top carry, "
+         "smallValues exact); msmC4..msmC8 orchestration (goroutines, channels, first-chunk split, reduction) for n<=3 points with real "
+         "bucket arrays (quick: c=4,5; thorough: 4..8) and with the chunk processor summarised by its contract; MultiExp window choice / "
+         "recursive split / fan-in for concrete (n, NbTasks, NumCPU) configurations with symbolic scalars; channel capacity and close/"
+         "send ordering conditions.",
+    design_ref="DESIGN.md section 5 / C09",
+    note="Trusted: encoder, z3, gnark point operations as group law (Double only in the chunk reduction), NumCPU stub, eager goroutine "
+         "schedule + happens-before conditions for channels. Outside: bucket accumulation for c>=9, the float cost model for all n "
+         "(executed concretely per configuration), n beyond the listed sizes.",
+    technique="SSA symbolic execution + SMT (z3 QF_BV/UF), group domain with formal doubling levels, protocol obligations on channel events")
+
 NOT_YET = {}
 
 ALL = ["C%02d" % i for i in range(1, 21)]
